@@ -48,11 +48,12 @@ def segment(n0, k, a, beta, z_lo, z_hi, n_override=None, panels=12):
         # time of flight of the uniform model keeps n(z) in one factor (n0 n(z) / (c sqrt)); callers
         # that want the pure uniform medium pass the result through their own formula.
         return np.array([beta / g * h, n / g * h, n * n / (C_LIGHT * g) * h])
-    if beta <= 0:
+    if beta <= 1e-9:
+        # (numerically) vertical: R = beta int dz / n + O(beta^3), L = h + O(beta^2 h) < 1e-18 h, T = int n dz / c
         # vertical ray: R = 0, L = h, T = int n dz / c  (closed form of an elementary integral)
         h = z_hi - z_lo
-        t = (n0 * h - k / a * (math.exp(a * z_hi) - math.exp(a * z_lo))) / C_LIGHT
-        return np.array([0.0, h, t])
+        t = _gl(lambda z: np.vstack([max(beta, 0.0) / (n0 - k * np.exp(a * z)), np.ones_like(z), (n0 - k * np.exp(a * z)) / C_LIGHT]), z_lo, z_hi, panels)
+        return np.array([t[0], h, t[2]])
     zt = turning_depth(n0, k, a, beta)
     if z_hi > zt * (1 + 1e-15 * np.sign(zt)) + 1e-9:
         raise ValueError("segment reaches above the turning depth: z_hi=%r z_t=%r" % (z_hi, zt))
